@@ -289,8 +289,6 @@ ThreadPool::Snapshot ThreadPool::snapshot() const
 
 void ThreadPool::threadProc(ThreadToken thread_token)
 {
-    bool let_main_loop_join_me = false;
-
     LogDbg("thread %u start", thread_token.id());
 
     while (true) {
@@ -303,7 +301,15 @@ void ThreadPool::threadProc(ThreadToken thread_token)
              */
             if ((d_->idle_thread_num >= d_->undo_tasks_cabinet.size()) && (d_->threads_cabinet.size() > d_->min_thread_num)) {
                 LogDbg("thread %u will exit, no more work.", thread_token.id());
-                let_main_loop_join_me = true;
+                //! 在做出退出决定的同一临界区内把自己从 threads_cabinet 中取出并交给main_loop去join()，
+                //! 这样 execute() 与 cleanup() 看到的存活线程集合才是准确的，此后本线程也不再访问 d_
+                auto t = d_->threads_cabinet.free(thread_token);
+                if (t != nullptr) {
+                    d_->wp_loop->runInLoop(
+                        [t]{ t->join(); delete t; },
+                        "ThreadPool::threadProc, join and delete it"
+                    );
+                }
                 break;
             }
 
@@ -365,19 +371,6 @@ void ThreadPool::threadProc(ThreadToken thread_token)
     }
 
     LogDbg("thread %u exit", thread_token.id());
-
-    if (let_main_loop_join_me) {
-        //! 则将线程取出来，交给main_loop去join()，然后delete
-        std::unique_lock<std::mutex> lk(d_->lock);
-
-        auto t = d_->threads_cabinet.free(thread_token);
-        TBOX_ASSERT(t != nullptr);
-        d_->wp_loop->runInLoop(
-            [t]{ t->join(); delete t; },
-            "ThreadPool::threadProc, join and delete it"
-        );
-        //! 这个操作放到最后来做是为了减少主线程join()的等待时长
-    }
 }
 
 bool ThreadPool::createWorker()
